@@ -329,6 +329,10 @@ static Constraint itv_con(int n, bool strict_ok) {
   return mk_con(Coefficient(d) * Variable(v), rrel(strict_ok), Linear_Expression(Coefficient(b)));
 }
 static Constraint gen_con(int n, bool strict_ok) { return mk_con(rexpr(n), rrel(strict_ok), Linear_Expression(Coefficient(0))); }
+// dense constraint: (almost) every variable occurs, equalities as likely as inequalities - the sign case analysis of the
+// constraint propagation has one branch per (relation, sign of the pivot coefficient, sign of every other coefficient)
+static Constraint gen_con_dense(int n, bool strict_ok) { int r = coin(45) ? 2 : rrel(strict_ok); return mk_con(rexpr(n, 8), r, Linear_Expression(Coefficient(0))); }
+static Constraint gen_con_mixed(int n, bool strict_ok) { return coin(40) ? gen_con_dense(n, strict_ok) : gen_con(n, strict_ok); }
 static bool is_interval_con(const Constraint& c, int n) { int cnt = 0; for (int i = 0; i < n && i < (int) c.space_dimension(); ++i) if (c.coefficient(Variable(i)) != 0) ++cnt; return cnt <= 1; }
 static int nvars_of(const Linear_Expression& e, int n) { int cnt = 0; for (int i = 0; i < n && i < (int) e.space_dimension(); ++i) if (e.coefficient(Variable(i)) != 0) ++cnt; return cnt; }
 static Generator rgen(int n, bool nnc, bool must_point) {
@@ -474,7 +478,7 @@ static bool mutate(StepCtx& c) {
   if (k < 18) { // refine_with_constraint(s): any constraint
     bool many = coin(); int cnt = many ? rnd(0, 3) : 1;
     std::vector<Constraint> cv; bool all_itv = true;
-    for (int i = 0; i < cnt; ++i) { Constraint cc = (n > 0 && coin(30)) ? itv_con(n, true) : gen_con(n, true); if (!is_interval_con(cc, n)) all_itv = false; cv.push_back(cc); }
+    for (int i = 0; i < cnt; ++i) { Constraint cc = (n > 0 && coin(30)) ? itv_con(n, true) : gen_con_mixed(n, true); if (!is_interval_con(cc, n)) all_itv = false; cv.push_back(cc); }
     Constraint_System cs; for (size_t i = 0; i < cv.size(); ++i) cs.insert(cv[i]);
     std::string nm = many ? "refine_with_constraints" : "refine_with_constraint";
     t << "." << nm << "("; for (size_t i = 0; i < cv.size(); ++i) t << (i ? ", " : "") << str(cv[i]); t << ")"; tr(t.str()); note_op(c, nm, all_itv ? "interval" : "general", false);
@@ -517,7 +521,7 @@ static bool mutate(StepCtx& c) {
   }
   if (k < 28) { // propagate_constraint(s)
     bool many = coin(); int cnt = many ? rnd(1, 3) : 1;
-    std::vector<Constraint> cv; for (int i = 0; i < cnt; ++i) cv.push_back(gen_con(n, true));
+    std::vector<Constraint> cv; for (int i = 0; i < cnt; ++i) cv.push_back(gen_con_mixed(n, true));
     Constraint_System cs; for (size_t i = 0; i < cv.size(); ++i) cs.insert(cv[i]);
     static const int its[5] = { 1, 2, 3, 5, 20 }; int mi = its[rnd(0, 4)];
     std::string nm = many ? "propagate_constraints" : "propagate_constraint";
